@@ -34,6 +34,10 @@ ASSUMPTIONS = [
     "tangent and positively oriented before they are used",
     "relative tolerance 1e-9 of the largest reference entry (absolute floor 1e-12); the blackboard history (which cached "
     "attribute exists when an operator is called) is C07's subject: operators are called in one fixed order per mesh",
+    "call forms: omitting an option means passing its documented default (table PINNED, copied by hand from the signatures and "
+    "docstrings of the unchanged tree), options passed positionally in the documented order mean the same as by keyword; the "
+    "reference of these clauses is the fully explicit keyword call of the library itself, which the option sweep compares with the "
+    "oracle on the same meshes",
     "connection Laplacians: Hermitian, entry moduli equal to the scalar weights, flat connection == scalar operator, "
     "parallel fields in the kernel on planar meshes; the transport angles themselves belong to C18",
 ]
@@ -43,10 +47,15 @@ BOUNDS = {
              "TRI(P): convex 4,5,6-gons, hexagon+1 and pentagon+2 interior points, ccw and cw; ZOO (grids <=4x4, holey 3x3 grids "
              "<=2 faces removed, octahedron, icosahedron, tori, antiprisms, Csaszar torus, quad/mixed/pentagon meshes for the "
              "incidence operators); TET n<=5 all (27) + TET(6) classes (16) x 3 alphabets x 3 cell orderings; GRAPH n<=5 all "
-             "(1099) x 2 alphabets x 2 edge orientations; octahedron split around an interior vertex (3 positions)",
+             "(1099) x 2 alphabets x 2 edge orientations; octahedron split around an interior vertex (3 positions); "
+             "call forms (clauses C08.defaults.*): on every 41st surface / 23rd tet mesh / 211th polyline of the above (+ octahedron, "
+             "3x3 tri and quad grids, Csaszar torus; ~80 meshes) every operator with options in all 3^k states of {omitted, documented "
+             "default explicit, other value} per option (k<=3), every positional prefix under 3 value vectors, everything by keyword, "
+             "numpy scalars; the pinned table of documented defaults vs inspect.signature and vs the docstrings (18 entry points)",
     "thorough": "as quick (full option cross product on everything quick covers), plus ALL labelled SURF(6) (12934) x {generic, lattice} "
                 "and all labelled TET(6) (2422) x 3 alphabets with the reduced option menu order=4 / format=csc (every other option "
-                "still crossed), convex 7-gon and hexagon+2 interior points, grids <=5x5, all holey 3x3 grids",
+                "still crossed), convex 7-gon and hexagon+2 interior points, grids <=5x5, all holey 3x3 grids; call forms on the same "
+                "strides through the fully crossed families (~90 meshes)",
 }
 
 TOL = 1e-9
@@ -201,6 +210,13 @@ def tasks(tier):
             out.append({"kind": kind, "specs": small[i:i + b]})
         for i in range(0, len(large), 3):
             out.append({"kind": kind, "specs": large[i:i + 3]})
+        # call forms (omitted / positional / keyword arguments): a fixed stride through the same families
+        full = [s for s in specs if not s.get("lite")]
+        sel = [s for i, s in enumerate(full) if i % DEFAULTS_STRIDE[kind] == 0 or s["name"] in DEFAULTS_ALSO]
+        b = DEFAULTS_BATCH[kind]
+        for i in range(0, len(sel), b):
+            out.append({"kind": "defaults", "of": kind, "specs": sel[i:i + b]})
+    out.append({"kind": "signature"})
     return out
 
 
@@ -979,6 +995,289 @@ def _polyline(M, spec, rep: Report):
     _graph_ops(cx, M, m, n, P)
 
 
+# ================================================================================================ documented defaults
+# entry point -> ([required parameters], [(optional parameter, documented default), ...] in the documented order).
+# Copied BY HAND from the signatures and the "Defaults to ..." sentences of the unchanged tree - never read from the
+# library at run time (a change of a default changes the signature too).  `format` of the two volume mass matrices:
+# the signature, the return annotation, the "Returns:" line and the sibling area_weight_matrix say csc (one docstring
+# sentence says dia: reported by C08.defaults.docstring).
+_LAP = [("cotan", True), ("connection", None), ("order", 4)]
+_MASS3 = [("inverse", False), ("sqrt", False), ("format", "csc")]
+PINNED = {
+    "adjacency_matrix": (["mesh"], [("weights", "one")]),
+    "vertex_to_edge_operator": (["mesh"], [("oriented", False)]),
+    "vertex_to_face_operator": (["mesh"], []),
+    "graph_laplacian": (["mesh"], []),
+    "laplacian": (["mesh"], _LAP),
+    "laplacian_triangles": (["mesh"], _LAP),
+    "laplacian_edges": (["mesh"], _LAP),
+    "cotan_edge_diagonal": (["mesh"], [("inverse", True)]),
+    "gradient": (["mesh", "conn"], [("as_complex", True)]),
+    "area_weight_matrix": (["mesh"], _MASS3),
+    "area_weight_matrix_faces": (["mesh"], [("inverse", False), ("format", "csc")]),
+    "area_weight_matrix_edges": (["mesh"], [("inverse", False)]),
+    "volume_laplacian": (["mesh"], []),
+    "laplacian_tetrahedra": (["mesh"], []),
+    "volume_weight_matrix": (["mesh"], _MASS3),
+    "volume_weight_matrix_cells": (["mesh"], _MASS3),
+    # the connection objects the operators are fed with (their content is C18's subject; here: how they are called)
+    "SurfaceConnectionVertices": (["mesh"], [("feat", None)]),
+    "SurfaceConnectionFaces": (["mesh"], [("feat", None)]),
+}
+# a non-default value of every optional parameter (the value of `connection` is built per mesh); None = there is none
+ALT = {"weights": "length", "oriented": True, "cotan": False, "order": 2, "inverse:True": False, "inverse:False": True,
+       "as_complex": False, "sqrt": True, "format": "csr"}
+DEFAULTS_STRIDE = {"surf": 41, "vol": 23, "graph": 211}
+DEFAULTS_ALSO = ("octahedron", "grid3x3tri", "grid3x3quad", "csaszar:gen")
+DEFAULTS_BATCH = {"surf": 4, "vol": 6, "graph": 11}
+
+
+def _alt_of(callee, p):
+    d = dict(PINNED[callee][1])[p]
+    return ALT.get(f"{p}:{d}", ALT.get(p))
+
+
+def _resolve(M, name):
+    if hasattr(M.operators, name):
+        return getattr(M.operators, name)
+    return getattr(M.processing, name) if hasattr(M.processing, name) else getattr(M.processing.connection, name)
+
+
+def _same_matrix(a, b):
+    """-> None if the two returned sparse matrices are the same answer, else (kind, detail)."""
+    fa, fb = getattr(a, "format", type(a).__name__), getattr(b, "format", type(b).__name__)
+    if fa != fb:
+        return "mismatch:format", {"got": fa, "want": fb}
+    if tuple(a.shape) != tuple(b.shape):
+        return "mismatch:shape", {"got": list(a.shape), "want": list(b.shape)}
+    if str(a.dtype) != str(b.dtype):
+        return "mismatch:dtype", {"got": str(a.dtype), "want": str(b.dtype)}
+    bad = _cmp(_dense(a), _dense(b))
+    return ("mismatch:entry", bad) if bad else None
+
+
+def _same_outcome(o, ref):
+    if not o.ok and not ref.ok:
+        return None
+    if not o.ok:
+        return exc_kind(o), {"msg": o.msg[:200]}
+    if not ref.ok:
+        return "mismatch:answers_only_in_this_call_form", {"reference_raises": ref.msg[:200]}
+    return _same_matrix(o.value, ref.value)
+
+
+def _defaults_fn(cx: Ctx, kind, callee, fn, req, alts, labels=None):
+    """All call forms of one entry point on one mesh.
+    omitted: every optional parameter in {omitted, documented default passed explicitly, a non-default value} (3^k
+    calls); a call with omissions must be the call in which the omitted parameters get their documented defaults.
+    positional: the options passed positionally in the documented order (every prefix; value vectors that tell two
+    parameters of the same type apart) and everything, the mesh included, passed by keyword, must be the keyword call."""
+    rep = cx.rep
+    reqnames, table = PINNED[callee]
+    names = [p for p, _ in table]
+    dflt = dict(table)
+    labels = labels or {}
+
+    def show(p, s):
+        return "<omitted>" if s == "omit" else (repr(dflt[p]) if s == "dflt" else labels.get(p, repr(alts.get(p))))
+
+    choices = [("omit", "dflt") + (("alt",) if p in alts else ()) for p in names]
+    res = {}
+    for st in itertools.product(*choices):
+        kw = {p: (dflt[p] if s == "dflt" else alts[p]) for p, s in zip(names, st) if s != "omit"}
+        res[st] = _lib_call(rep, callee, fn, *req, **kw)
+        rep.case((cx.key, callee, "call_form", st))
+    fails = {}
+    for st, o in res.items():
+        if "omit" not in st:
+            for i, p in enumerate(names):       # vacuity: passing the other value changes the answer somewhere
+                if st[i] == "alt" and _same_outcome(o, res[st[:i] + ("dflt",) + st[i + 1:]]) is not None:
+                    rep.flag(f"dflt:discriminates:{callee}:{p}")
+            continue
+        ref = res[tuple("dflt" if s == "omit" else s for s in st)]
+        rep.evaluations += 1
+        om = frozenset(p for p, s in zip(names, st) if s == "omit")
+        if ref.ok:
+            for p in om:
+                rep.flag(f"dflt:omitted:{callee}:{p}")
+            if len(om) == len(names):
+                rep.flag(f"dflt:all_omitted:{callee}")
+        d = _same_outcome(o, ref)
+        if d:
+            fails.setdefault(d[0], []).append((om, st, d[1]))
+    for knd, lst in fails.items():
+        common = frozenset.intersection(*(om for om, _, _ in lst)) or frozenset.union(*(om for om, _, _ in lst))
+        om, st, det = min(lst, key=lambda t: (len(t[0]), t[1]))
+        rep.violation("C08.defaults.omitted", callee, knd, f"{kind}|omitted={'+'.join(sorted(common))}",
+                      {"mesh": cx.spec, "call": {p: show(p, s) for p, s in zip(names, st)},
+                       "documented_defaults": {p: repr(v) for p, v in table}, **(det or {})})
+    # ---- positional / keyword forms
+    vec = lambda pat: tuple(("alt" if (pat[i % len(pat)] and p in alts) else "dflt") for i, p in enumerate(names))
+    vectors = sorted(set([vec((1,)), vec((1, 0)), vec((0, 1))]))
+    pfails = {}
+    for st in vectors:
+        vals = [dflt[p] if s == "dflt" else alts[p] for p, s in zip(names, st)]
+        ref = res[st]
+        forms = [(j, list(vals[:j]), dict(zip(names[j:], vals[j:]))) for j in range(1, len(names) + 1)]
+        for j, pos, kw in forms:
+            o = _lib_call(rep, callee, fn, *req, *pos, **kw)
+            rep.case((cx.key, callee, "positional", st, j))
+            rep.evaluations += 1
+            if ref.ok:
+                for p in names[:j]:
+                    rep.flag(f"dflt:positional:{callee}:{p}")
+            d = _same_outcome(o, ref)
+            if d:
+                pfails.setdefault(d[0], []).append((j, st, d[1]))
+        o = _lib_call(rep, callee, fn, **dict(zip(reqnames, req)), **dict(zip(names, vals)))
+        rep.evaluations += 1
+        if ref.ok:
+            rep.flag(f"dflt:all_keywords:{callee}")
+        d = _same_outcome(o, ref)
+        if d:
+            pfails.setdefault(d[0], []).append((0, st, d[1]))
+    # ---- the same values as numpy scalars (numpy.bool_ / numpy.int64, as they come out of an array)
+    np = _np()
+    as_np = lambda v: np.bool_(v) if isinstance(v, bool) else (np.int64(v) if isinstance(v, int) else v)
+    for st in sorted(set([vec((1,)), vec((0,))])):
+        vals = [dflt[p] if s == "dflt" else alts[p] for p, s in zip(names, st)]
+        if not any(isinstance(v, (bool, int)) for v in vals):
+            continue
+        o = _lib_call(rep, callee, fn, *req, **{p: as_np(v) for p, v in zip(names, vals)})
+        rep.evaluations += 1
+        rep.flag(f"dflt:numpy_scalars:{callee}")
+        d = _same_outcome(o, res[st])
+        if d:
+            rep.violation("C08.defaults.numpy_scalars", callee, d[0], f"{kind}|" + "+".join(
+                sorted(set(type(as_np(v)).__name__ for v in vals if isinstance(v, (bool, int))))),
+                {"mesh": cx.spec, "values": {p: show(p, s) for p, s in zip(names, st)}, **(d[1] or {})})
+    for knd, lst in pfails.items():
+        j, st, det = min(lst, key=lambda t: (t[0], t[1]))
+        cls = f"{kind}|" + ("required_by_keyword" if j == 0 else f"positional_up_to={names[j - 1]}")
+        rep.violation("C08.defaults.positional", callee, knd, cls,
+                      {"mesh": cx.spec, "values": {p: show(p, s) for p, s in zip(names, st)},
+                       "passed_positionally": (reqnames + names[:j]) if j else [], **(det or {})})
+
+
+def _defaults_graph(cx, kind, M, m):
+    for callee, p in (("adjacency_matrix", "weights"), ("vertex_to_edge_operator", "oriented")):
+        _defaults_fn(cx, kind, callee, getattr(M.operators, callee), (m,), {p: _alt_of(callee, p)})
+
+
+def _defaults_task(M, kind, spec, rep: Report):
+    pts = [tuple(p) for p in spec["pts"]]
+    P = O.fr_pts(pts)
+    rep.count("defaults_meshes_enumerated")
+    if kind == "graph":
+        edges = [tuple(e) for e in spec["edges"]]
+        m = F.build_polyline(pts, edges)
+        cx = Ctx(rep, "polyline", {k: spec[k] for k in ("pts", "edges", "name")}, ("dflt", tuple(pts), tuple(edges)))
+        rep.flag("dflt:polyline" + (":E=0" if not edges else ""))
+        _defaults_graph(cx, "polyline", M, m)
+        return
+    if kind == "vol":
+        cells = [tuple(c) for c in spec["cells"]]
+        if not all(O.tet_ok(P, c) for c in cells):
+            rep.count("defaults_filtered_ill_conditioned"); return
+        m = F.build_volume(pts, cells)
+        cx = Ctx(rep, "vol", {k: spec[k] for k in ("pts", "cells", "name")}, ("dflt", tuple(pts), tuple(cells)))
+        rep.flag("dflt:vol")
+        _defaults_graph(cx, "vol", M, m)
+        for callee in ("volume_weight_matrix", "volume_weight_matrix_cells"):
+            _defaults_fn(cx, "vol", callee, getattr(M.operators, callee), (m,), {p: _alt_of(callee, p) for p, _ in PINNED[callee][1]})
+        return
+    faces = [tuple(f) for f in spec["faces"]]
+    poly, iso = bool(spec.get("poly")), bool(spec.get("iso"))
+    if not poly and not all(O.tri_ok(P, f) for f in faces):
+        rep.count("defaults_filtered_ill_conditioned"); return
+    m = F.build_surface(pts, faces)
+    cx = Ctx(rep, "surf", {k: spec[k] for k in ("pts", "faces", "name")}, ("dflt", tuple(pts), tuple(faces)))
+    rep.flag("dflt:surf" + (":polygonal" if poly else ":isolated_vertex" if iso else ":closed" if not F.border_half_edges(faces) else ":bordered"))
+    _defaults_graph(cx, "surf", M, m)
+    if poly or iso:
+        return
+    ops = M.operators
+    for callee, cname in (("laplacian", "SurfaceConnectionVertices"), ("laplacian_triangles", "SurfaceConnectionFaces"),
+                          ("laplacian_edges", "SurfaceConnectionEdges")):
+        alts = {"cotan": _alt_of(callee, "cotan"), "order": _alt_of(callee, "order")}
+        oc = call(_resolve(M, cname), m)
+        rep.transitions += 1
+        if oc.ok:
+            alts["connection"] = oc.value
+        else:
+            rep.count("defaults_connection_ctor_raises:" + cname)
+        _defaults_fn(cx, "surf", callee, getattr(ops, callee), (m,), alts, labels={"connection": f"{cname}(mesh)"})
+        if oc.ok and callee == "laplacian_triangles":
+            _defaults_fn(cx, "surf", "gradient", ops.gradient, (m, oc.value), {"as_complex": _alt_of("gradient", "as_complex")})
+    for callee in ("cotan_edge_diagonal", "area_weight_matrix", "area_weight_matrix_faces", "area_weight_matrix_edges"):
+        _defaults_fn(cx, "surf", callee, getattr(ops, callee), (m,), {p: _alt_of(callee, p) for p, _ in PINNED[callee][1]})
+    # the connection objects: `feat` omitted == feat=None == None passed positionally, judged through the operator built on them
+    for cname, opname in (("SurfaceConnectionVertices", "laplacian"), ("SurfaceConnectionFaces", "laplacian_triangles")):
+        C, op = _resolve(M, cname), getattr(ops, opname)
+        _defaults_fn(cx, "surf", cname, lambda mesh, *a, _C=C, _op=op, **k: _op(mesh, True, _C(mesh, *a, **k), 4), (m,), {})
+
+
+def _parse_documented_default(doc, param):
+    """The X of the "Defaults to X" sentence in the docstring entry of `param` (None: the entry has no such sentence)."""
+    import re
+    lines = (doc or "").splitlines()
+    entry = re.compile(r"^\s*(\w+)\s*(\([^)]*\))?\s*:")
+    stop = re.compile(r"^\s*(Returns|Raises|Keyword Args|References?|See also|Note|Warning)\b")
+    for i, l in enumerate(lines):
+        mt = entry.match(l)
+        if mt and mt.group(1) == param:
+            text = l
+            for l2 in lines[i + 1:]:
+                if stop.match(l2) or (entry.match(l2) and entry.match(l2).group(2)):
+                    break
+                text += " " + l2
+            found = re.search(r"[Dd]efaults? to\s+[\"'`]?([\w.+-]+)", text)
+            return found.group(1).rstrip(".") if found else None
+    return None
+
+
+def _signature_task(M, rep: Report):
+    """The pinned table against inspect.signature() and against the "Defaults to" sentences of the docstrings."""
+    import inspect
+    for callee, (reqnames, table) in PINNED.items():
+        fn = _resolve(M, callee)
+        name = callee if hasattr(M.operators, callee) else callee + ".__init__"
+        o = call(inspect.signature, fn)
+        rep.transitions += 1
+        rep.case(("signature", callee))
+        if not o.ok:
+            rep.violation("C08.defaults.signature", name, exc_kind(o), "inspect.signature", {"msg": o.msg[:200]}); continue
+        params = [p for p in o.value.parameters.values() if p.kind in (p.POSITIONAL_ONLY, p.POSITIONAL_OR_KEYWORD)]
+        rep.outcome("signature", str(o.value)[:60])
+        rep.flag(f"dflt:signature:{callee}")
+        for i, rq in enumerate(reqnames):
+            rep.evaluations += 1
+            if i >= len(params) or params[i].name != rq or params[i].default is not inspect.Parameter.empty:
+                rep.violation("C08.defaults.signature", name, "mismatch:parameter_order", rq,
+                              {"documented": reqnames + [p for p, _ in table], "signature": str(o.value)})
+        for j, (p, d) in enumerate(table):
+            i = len(reqnames) + j
+            rep.evaluations += 2
+            rep.flag(f"dflt:signature:{callee}:{p}")
+            if i >= len(params) or params[i].name != p:
+                rep.violation("C08.defaults.signature", name, "mismatch:parameter_order", p,
+                              {"documented": reqnames + [q for q, _ in table], "signature": str(o.value)})
+                continue
+            got = params[i].default
+            if got is inspect.Parameter.empty or type(got) is not type(d) or got != d:
+                rep.violation("C08.defaults.signature", name, "mismatch:default_value", p,
+                              {"documented": repr(d), "signature_default": "<required>" if got is inspect.Parameter.empty else repr(got),
+                               "signature": str(o.value)})
+            doc = (fn.__doc__ or "") if hasattr(M.operators, callee) else ((fn.__init__.__doc__ or "") + "\n" + (fn.__doc__ or ""))
+            said = _parse_documented_default(doc, p)
+            rep.outcome("documented_default", said is not None)
+            if said is not None:
+                rep.flag(f"dflt:docstring:{callee}:{p}")
+                if said != str(d):
+                    rep.violation("C08.defaults.docstring", name, "mismatch:documented_default", p,
+                                  {"docstring_says": said, "default": repr(d)})
+
+
 # ================================================================================================ driver
 def run_task(task, rep: Report):
     import warnings
@@ -991,6 +1290,13 @@ def run_task(task, rep: Report):
     np = _np()
     old = np.seterr(all="ignore")
     try:
+        if task["kind"] == "signature":
+            _signature_task(M, rep)
+            return
+        if task["kind"] == "defaults":
+            for spec in task["specs"]:
+                _defaults_task(M, task["of"], spec, rep)
+            return
         fn = {"surf": _surface, "vol": _volume, "graph": _polyline}[task["kind"]]
         for spec in task["specs"]:
             fn(M, spec, rep)
@@ -1035,6 +1341,26 @@ def finish(tier, rep: Report):
         fails.append("the conditioning predicate never fired (expected: moment-curve surfaces, sliver tetrahedra)")
     if c.get("polylines_enumerated") != 2 * 1099 + 2 * (1099 - 5):
         fails.append(f"GRAPH(<=5) family size changed: {c.get('polylines_enumerated')}")
+    # ---- documented defaults: every entry of the pinned table was exercised in every call form
+    for callee, (reqnames, table) in PINNED.items():
+        if f"dflt:signature:{callee}" not in rep.flags:
+            fails.append(f"signature never compared with the pinned table: {callee}")
+        for p, d in table:
+            forms = ["signature", "omitted", "positional"] + ([] if _alt_of(callee, p) is None and p != "connection" else ["discriminates"])
+            for form in forms:
+                if f"dflt:{form}:{callee}:{p}" not in rep.flags:
+                    fails.append(f"documented default never exercised ({form}): {callee}({p}={d!r})")
+        if table:
+            for form in ("all_omitted", "all_keywords") + (("numpy_scalars",) if any(isinstance(d, (bool, int)) for _, d in table) else ()):
+                if f"dflt:{form}:{callee}" not in rep.flags:
+                    fails.append(f"call form never exercised ({form}): {callee}")
+    for f in ("dflt:surf:closed", "dflt:surf:bordered", "dflt:surf:polygonal", "dflt:vol", "dflt:polyline", "dflt:polyline:E=0"):
+        if f not in rep.flags:
+            fails.append("coverage flag missing: " + f)
+    if sum(1 for f in rep.flags if f.startswith("dflt:docstring:")) < 20:
+        fails.append("fewer than 20 'Defaults to' sentences were found in the docstrings: the docstring parser lost its grip")
+    if not c.get("defaults_meshes_enumerated", 0) - c.get("defaults_filtered_ill_conditioned", 0) >= 60:
+        fails.append(f"too few meshes went through the call-form clauses: {c.get('defaults_meshes_enumerated')}")
     for k in list(c):
         if k.startswith("premise_failed"):
             fails.append(f"oracle premise failed on {c[k]} input(s): {k}")
